@@ -296,6 +296,8 @@ def api_cases(thorough):
         "with-nonfinite": ([0.5, float("nan"), 2.5, float("inf"), 3.0], [10.0, 20.0, float("nan"), 40.0, 80.0]),
         "one-point": ([1.25], [3.0]),
         "negatives": ([-1.0, 0.5, 2.0, 4.0], [1.0, 2.0, 4.0, 8.0]),
+        # every point exactly on a cell edge of the explicit grid [0.25, 4.25] x [0.5, 128.5] at resolution 4 and 2
+        "on-edges": ([0.25, 1.25, 2.25, 3.25, 1.25, 2.25], [0.5, 32.5, 64.5, 96.5, 64.5, 32.5]),
     }
     for dname in datasets:
         for limits in ("auto", "explicit", "explicit-quantity", "explicit-tight", "half"):
@@ -400,11 +402,19 @@ def run_api_case(acc, idx, c):
     # expected placement with an ambiguity band at the edges
     span_x, span_y = abs(xe[-1] - xe[0]), abs(ye[-1] - ye[0])
 
+    exact_grid = c["data"] == "on-edges" and c["limits"] in ("explicit", "explicit-quantity") and not (logx or logy)
+
     def place(v, e, span):
         if not np.isfinite(v):
             return {None}
         s = set()
-        tol = 1e-9 * max(span, abs(v))
+        # with dyadic explicit limits the edges and the offsets are exact: a point on an edge belongs to the upper cell
+        tol = 0.0 if exact_grid else 1e-9 * max(span, abs(v))
+        if exact_grid:
+            for k in range(len(e) - 1):
+                if e[k] <= v < e[k + 1]:
+                    return {k}
+            return {None}
         for k in range(len(e) - 1):
             if e[k] - tol <= v <= e[k + 1] + tol:
                 if e[k] + tol <= v <= e[k + 1] - tol:
